@@ -382,6 +382,15 @@ func (r *UnitRun) toTerm(st *State, v Val, t types.Type) string {
 		f := r.fresh("fn_"+strings.ReplaceAll(v.Fn.unit.Name, "#", "_"), "Fn")
 		st.assume(not(eq(f, "nil_Fn")))
 		v.Fn.term = f
+		if cu := v.Fn.unit; cu.Source != "" || cu.Target != "" {
+			r.bindEdgeGhost(st, cu, f)
+			// static preconditions of an escaping closure are checked where it is created
+			env := &SpecEnv{run: r, st: st, old: r.entry, bound: map[string]Val{}}
+			for i, c := range cu.Requires {
+				goal := r.specBool(env, c, "requires of closure "+cu.Name)
+				r.oblige(st, "closure-pre", fmt.Sprintf("%s.%d", cu.Name, i), goal, cu.Lit, "static precondition of escaping closure "+cu.Name+": "+c.Text, c.Tags)
+			}
+		}
 		return f
 	case KPtr:
 		if pp, ok := v.P.(*paramPtrLoc); ok {
@@ -641,9 +650,25 @@ func (r *UnitRun) sliceArr(st *State, s *SliceVal) string {
 func (r *UnitRun) sliceElem(st *State, s *SliceVal, idx string) Val {
 	t := sx("select", r.sliceArr(st, s), add(s.Off, idx))
 	if s.Elem != nil {
-		return r.fromTerm(t, s.Elem)
+		return r.lenFact(st, r.fromTerm(t, s.Elem))
 	}
-	return r.valOfSort(t, s.ESrt)
+	return r.lenFact(st, r.valOfSort(t, s.ESrt))
+}
+
+// lenFact records that a slice value read out of the heap / another slice has a non-negative length.
+func (r *UnitRun) lenFact(st *State, v Val) Val {
+	if v.K == KSlice && v.S.Obj == nil && st != nil {
+		f := sx(">=", v.S.Len, "0")
+		if !strings.Contains(v.S.Len, "!q") {
+			for _, x := range st.facts {
+				if x == f {
+					return v
+				}
+			}
+			st.assume(f)
+		}
+	}
+	return v
 }
 
 func (r *UnitRun) sliceIsNil(s *SliceVal) string {
@@ -713,7 +738,7 @@ func (r *UnitRun) selectField(st *State, base Val, name string, n ast.Node) Val 
 			if n != nil {
 				r.oblige(st, "nil", fmt.Sprintf("sel%d", r.siteOrd[n]), not(eq(base.T, r.prog.World.nilOf(base.Sort))), n, "nil dereference reading ."+name, nil)
 			}
-			return r.fromTerm(sx("select", r.heapTerm(st, fi), base.T), fi.goType)
+			return r.lenFact(st, r.fromTerm(sx("select", r.heapTerm(st, fi), base.T), fi.goType))
 		}
 	case KPtr:
 		return r.selectField(st, base.P.load(st), name, n)
@@ -740,3 +765,11 @@ func debugf(format string, args ...any) {
 }
 
 var _ = token.NoPos
+
+func (r *UnitRun) ptrTypeByName(name string) types.Type {
+	if t := r.structByName(name); t != nil {
+		r.prog.World.sortOf(types.NewPointer(t))
+		return types.NewPointer(t)
+	}
+	panic(toolLimit("no struct type " + name))
+}
